@@ -160,10 +160,12 @@ check("C19",
       "definition at a skolem position holds for every data iff the combined pieces tile the window/prefix exactly.  Also: "
       "exact key grid, advertised block shapes; and the public sliding_window_view end to end -- the view alone (also two "
       "windows on one axis) and view.sum(-1) with the real SlidingWindowView._simplify_up choosing the overlap plan or the "
-      "native kernels per path -- against the NumPy definition.",
+      "native kernels per path -- against the NumPy definition; the public cumsum (both methods), diff and gradient (scalar spacing) "
+      "programs; slices pushed through map_overlap; map_overlap(trim=False).",
       "Trusted: z3, symx shims, symx.sarr scan model (accumulate/reduce of views and concatenations of views), exact reals. "
       "The tiling argument extends the verdict from add to the other reducers that share the kernel code path (stated, not "
-      "separately discharged). Outside: 'nearest' and constant-value boundaries, diff/gradient, var, float rounding.",
+      "separately discharged). Outside: 'nearest' and constant-value boundaries, gradient with coordinate arrays / edge_order 2, "
+      "masked arrays, var, float rounding.",
       "DESIGN.md 6 C19",
       technique="bounded symbolic execution of the repo's layers and block kernels on symbolic arrays (symx) + z3 SMT (QF_UFLIRA)")
 
